@@ -42,6 +42,29 @@ def derived_sizes(rng, srcs):
     return sorted(b for b in out if 64 <= b <= 0xFFFFFF)
 
 
+def gen_wild(rng):
+    """content outside the single-notation generator: a second timestamp notation and digits appear inside messages
+    (legal input; no reference model -- the oracle for this family is only 'same output as at the default block size')"""
+    import world
+    t = 946684800_000_000_000 + rng.randrange(10**6) * 1_000_000_000
+    out = bytearray()
+    n = rng.randint(3, 25)
+    for i in range(n):
+        t += rng.choice((0, 1, 2, 60)) * 1_000_000_000
+        out += world.stamp(t, 0, 1, 3) + b" W" + world.tag26(i) + b" " + world._body(rng, rng.randint(0, 25 if i < 2 else 80), 0) + b"\n"
+        if rng.random() < 0.35:
+            y, mo, d, h, mi, sec, _ = world.civil(t + rng.choice((0, 1, 5)) * 1_000_000_000, 0)
+            style = rng.randrange(3)
+            if style == 0:
+                ln = b"%04d-%02d-%02d %02d:%02d:%02d inner stamp " % (y, mo, d, h, mi, sec)
+            elif style == 1:
+                ln = b"[%04d/%02d/%02d %02d:%02d:%02d] bracketed " % (y, mo, d, h, mi, sec)
+            else:
+                ln = b"  at line %d of 0x%x items, pid %d " % (rng.randrange(10**4), rng.randrange(10**6), rng.randrange(10**5))
+            out += ln + world._body(rng, rng.randint(0, 60), 0) + b"\n"
+    return bytes(out)
+
+
 def gen_case(rng):
     n = rng.choice((1, 1, 2, 3))
     target = rng.choice((64, 100, 128, 256, 512))
@@ -54,9 +77,18 @@ def gen_case(rng):
 
 def run_case(seed, i, tier):
     rng = core.rng_for(seed, PROP, i)
-    srcs = gen_case(rng)
-    base_opts = ["--color", "never", "--tz-offset", "+00:00"]
-    expected = merge.model_stdout(srcs)
+    wild = i % 4 == 3
+    if wild:
+        srcs = []
+        for k in range(rng.choice((1, 1, 2))):
+            content = gen_wild(rng)
+            srcs.append(merge.Source("w%d.log" % k, "text", [], content, content))
+        base_opts = ["--color", "never", "--tz-offset", "+00:00"] + rng.choice(([], ["--separator", "<#>"], ["-u", "-d", "%s|"], ["-n", "--separator", "<#>", "-u"]))
+        expected = None
+    else:
+        srcs = gen_case(rng)
+        base_opts = ["--color", "never", "--tz-offset", "+00:00"]
+        expected = merge.model_stdout(srcs)
     sizes = list(FIXED)
     ds = derived_sizes(rng, srcs)
     rng.shuffle(ds)
@@ -77,8 +109,15 @@ def run_case(seed, i, tier):
         cr.violations.append(Violation(cls, "default block size: %s" % detail, rp))
     if vs0:
         return cr
+    if wild:
+        cr.probes["wild_content_family"] += 1
     for bsz in sizes:
-        if not all(merge.blockzero_safe(s.plain, s.msgs, bsz) for s in srcs if s.plain is not None):
+        if wild:
+            # F-C12a steering for this family: the first line (<= 70 bytes) must end inside block zero, and a block zero
+            # of >= 8096 bytes needs three lines: true for every size here except when the file is tiny and the size large
+            if bsz < 72:
+                continue
+        elif not all(merge.blockzero_safe(s.plain, s.msgs, bsz) for s in srcs if s.plain is not None):
             cr.probes["size_steered_away_from_F-C12a"] += 1
             continue
         opts = base_opts + ["--blocksz", str(bsz) if rng.random() < 0.7 else hex(bsz)]
